@@ -25,11 +25,20 @@ structure Params where
   /-- the look-up-or-create of a pending slot is one critical section in both brokers (`MuxBroker.getStream`,
   `GRPCBroker.getClientStream` / `getServerStream`) -/
   slotLookupAtomic : Bool
+  /-- the command runner's address translation is the identity in both directions -/
+  translatorIdentity : Bool
+  /-- `dispenseServer.Dispense` takes the id it hands out from the broker's own allocator (`NextId`) -/
+  dispenseUsesBrokerIds : Bool
+  /-- `GRPCBroker.AcceptAndServe` serves with the TLS configuration the broker was given, itself (no field-by-field copy) -/
+  brokerServesWithGivenTLS : Bool
+  /-- `serverListener_unix` takes the socket's name from `os.CreateTemp` in the configured directory -/
+  socketNamesFromCreateTemp : Bool
   deriving DecidableEq, Repr
 
 def Params.Good (P : Params) : Prop :=
   P.noSessionResumption = true ∧ P.runnerLeavesEnv = true ∧ P.noWriteDeadlines = true ∧ P.brokerSharesSocketDir = true ∧
-    P.doorBeforeAck = true ∧ P.startErrorOnlyFromExec = true ∧ P.slotLookupAtomic = true
+    P.doorBeforeAck = true ∧ P.startErrorOnlyFromExec = true ∧ P.slotLookupAtomic = true ∧
+    P.translatorIdentity = true ∧ P.dispenseUsesBrokerIds = true ∧ P.brokerServesWithGivenTLS = true ∧ P.socketNamesFromCreateTemp = true
 instance (P : Params) : Decidable P.Good := by unfold Params.Good; exact inferInstance
 
 /-- C12: is the pinned certificate consulted on the `k`-th TLS connection a client makes (0 = the first)?  A resumed
@@ -66,5 +75,24 @@ def launchedDespiteStartError (P : Params) : Bool := !P.startErrorOnlyFromExec
 the same instant (`together`).  How many slots for that id exist afterwards?  (With two, the stream is parked in one and
 the accept waits on the other: both time out although they were issued microseconds apart.) -/
 def slotsAfterRendezvous (P : Params) (together : Bool) : Nat := if P.slotLookupAtomic || !together then 1 else 2
+
+/-- C01: the address `Start` records for a command launch, given the address field of the handshake line and whatever a
+non-identity translation would make of it -/
+def recordedAddr (P : Params) (rewrite : String → String) (onLine : String) : String :=
+  if P.translatorIdentity then onLine else rewrite onLine
+
+/-- C06: the ids outstanding on the plugin's broker after `d` dispenses and `r` reservations of the plugin's own
+(`NextId`), in that order.  With one allocator they are `1 … d + r`; with a counter of its own the dispenses use `1 … d`
+again. -/
+def outstandingIds (P : Params) (d r : Nat) : List Nat :=
+  if P.dispenseUsesBrokerIds then List.range' 1 (d + r) else List.range' 1 d ++ List.range' 1 r
+
+/-- C07: does a brokered server present a certificate when the configuration it was given supplies its certificate through
+a callback (`GetCertificate`) rather than the static list?  A field-by-field copy of "the server-side fields" drops it. -/
+def brokeredServerHasCert (P : Params) (certViaCallback : Bool) : Bool := P.brokerServesWithGivenTLS || !certViaCallback
+
+/-- C07: host and plugin create their k-th and j-th brokered socket in ONE shared directory.  Can the two names be equal?
+(Names from `os.CreateTemp` are unique in the directory whoever asks; per-process sequence numbers are not.) -/
+def socketNamesCanCollide (P : Params) (k j : Nat) : Bool := !P.socketNamesFromCreateTemp && k == j
 
 end GoPlugin.Hygiene
